@@ -67,6 +67,10 @@ func (rp *RuleParser) ParseVariables(vars string) error {
 					curKey = append(curKey, c)
 				}
 			}
+			if isquoted && curr != 2 {
+				// only regular expression keys can be quoted: '/.../'
+				return fmt.Errorf("quoted variable key is not a regular expression: %q", vars)
+			}
 			if curr == 2 && (c != '/' || isEscaped) {
 				// the input ended inside the regular expression
 				return fmt.Errorf("unterminated regular expression key: %q", vars)
@@ -143,9 +147,12 @@ func (rp *RuleParser) ParseVariables(vars string) error {
 				// We are starting a regex
 				// (a slash inside a plain key, as in ARGS:a/b, is part of the key)
 				curr = 2
-			case c == '\'':
+			case c == '\'' && len(curKey) == 0:
 				// we start a quoted regex
 				// we go back to the loop to find /
+				if isquoted {
+					return fmt.Errorf("unexpected quote in variable key: %q", vars)
+				}
 				isquoted = true
 			default:
 				curKey = append(curKey, c)
